@@ -1,4 +1,5 @@
 import LimnoriaModel.C19.Model
+import LimnoriaModel.C19.Reentrant
 import LimnoriaModel.Driver.Core
 namespace C19
 open Py Wire
@@ -65,10 +66,33 @@ def decRule (f : String) : Option Filter :=
     | "drop" => pure fun _ m => if m.cmd = c' then none else some m
     | "raise" => pure fun _ m => some m            -- firewall: the message goes on unchanged
     | "same" => pure fun _ m => some m
+    | "resend" => pure fun _ m => if m.cmd = c' then none else some m     -- (plain view; `take` uses decRRule)
+    | "requeue" => pure fun _ m => if m.cmd = c' then none else some m
+    | "sendalso" => pure fun _ m => some m
     | "rewrite" => pure fun n m =>
         if m.cmd = c' then some ⟨.int n, { m.c with cmd := nc' }⟩ else some m
     | _ => none
   | _ => none
+
+/-- the same rules as (possibly re-entrant) filters: `resend` / `requeue` drop the message and send /
+queue a copy with another command, `sendalso` lets it through and sends such a copy -/
+def decRRule (f : String) : Option RFilter :=
+  match f.splitOn ":" with
+  | [kind, c, nc] => do
+    let c' ← dec c
+    let nc' ← dec nc
+    match kind with
+    | "resend" => pure fun _ m =>
+        if m.cmd = c' then (none, [⟨true, { m.c with cmd := nc' }⟩]) else (some m, [])
+    | "requeue" => pure fun _ m =>
+        if m.cmd = c' then (none, [⟨false, { m.c with cmd := nc' }⟩]) else (some m, [])
+    | "sendalso" => pure fun _ m =>
+        if m.cmd = c' then (some m, [⟨true, { m.c with cmd := nc' }⟩]) else (some m, [])
+    | _ => do pure (lift (← decRule f))
+  | _ => none
+
+def decRRules (f : String) : Option (List RFilter) :=
+  if f = "-" then some [] else (f.splitOn ";").mapM decRRule
 
 def decRules (f : String) : Option (List Filter) :=
   if f = "-" then some [] else (f.splitOn ";").mapM decRule
@@ -110,7 +134,7 @@ def chainOf (evs : List Ev) : String :=
     | _ => none
   if l.isEmpty then "-" else ";".intercalate l
 
-def discOf (evs : List Ev) : String :=
+def discStr (evs : List Ev) : String :=
   let l := evs.filterMap fun
     | .discarded ms => some ms
     | _ => none
@@ -126,7 +150,7 @@ def noteOf (evs : List Ev) : String :=
   if s.isEmpty then "-" else s
 
 def render (isQueue : Bool) (r : Irc × List Ev) : String :=
-  retOf isQueue r.2 ++ "\t" ++ drvOf r.2 ++ "\t" ++ chainOf r.2 ++ "\t" ++ discOf r.2 ++ "\t" ++ encState r.1 ++
+  retOf isQueue r.2 ++ "\t" ++ drvOf r.2 ++ "\t" ++ chainOf r.2 ++ "\t" ++ discStr r.2 ++ "\t" ++ encState r.1 ++
     "\t" ++ noteOf r.2
 
 def defaultCfg : Cfg :=
@@ -173,12 +197,23 @@ def stepLine (s : Irc) : List String → Option (Irc × List Ev)
     pure (step s (.capLabel b'))
   | _ => none
 
+/-- the state of the driver: the Irc and the (re-entrant) filter chain in force -/
 def handler : Driver.Handler :=
-  { σ := Irc
-    init := blank defaultCfg 0
-    step := fun s fs =>
-      match stepLine s fs with
-      | some r => (r.1, render (fs.head? == some "queue") r)
-      | none => (s, "bad-op") }
+  { σ := Irc × List RFilter
+    init := (blank defaultCfg 0, [])
+    step := fun st fs =>
+      match fs with
+      | ["take"] =>
+        -- `Irc.takeMsg()`: the re-entrant model (equal to `takeMsg` when no filter queues: rtakeMsg_plain)
+        let r := rtakeMsg st.2 st.1
+        ((r.1, st.2), render false r)
+      | ["filters", rs] =>
+        match decRRules rs, stepLine st.1 fs with
+        | some rf, some r => ((r.1, rf), render false r)
+        | _, _ => (st, "bad-op")
+      | _ =>
+        match stepLine st.1 fs with
+        | some r => ((r.1, st.2), render (fs.head? == some "queue") r)
+        | none => (st, "bad-op") }
 
 end C19
